@@ -46,6 +46,10 @@ for _p, _t in (('C01', 'safe reclamation'), ('C02', 'retired objects destroyed e
        text='%s: decided so far by a schedule search over the real reclaimers (8 configurations in the quick tier, 20 in the thorough tier: static/dynamic HP and HE with K=1..3, EBR/NEBR/DEBRA and four further generic_epoch_based configurations, QSBR, Stamp-it, LFRC with and without thread-local free list) driven by a generic protocol-conforming client; strategies: random, PCT, preemption-bounded DFS, sequential generations, and a three-party phase sweep (holder / scanner-or-epoch-advancer / retire-and-exit); oracles: guarded node alive on every dereference, quarantine allocator (use-after-free, double free), census after a public-API flush, slot-exhaustion rules, bookkeeping growth. The Coq obligations of this property are still placeholders; the reclaimer models are work in progress.' % _t,
        note='Exploration with exact oracles, not a proof yet. SC interleavings only (fences: C03).',
        technique='schedule search with memory-safety / census / slot oracles (Coq model pending)', design='5/' + _p, level='exploration')
+CLAIMED['C16'] = dict(
+   text='Solo-termination search over the real code: from prefixes of random schedules of small programs (other threads stopped mid-operation) one thread inside or about to start an operation documented lock-free runs alone and must return within 5000 of its own atomic steps; a thread that only re-reads unchanged locations is reported as waiting. Covers all queues, the chase deque, seqlock load (slots > 1), left_right read, Harris-Michael operations and iterators, vyukov_hash_map::try_get_value and guard acquire/reset/reclaim of the reclaimers. The Coq obligations of this property are still placeholders; the solo bounds over the proved invariants are work in progress.',
+   note='Exploration, not a proof yet. SC interleavings only.',
+   technique='solo-run search from explored prefixes (Coq solo-bound theorems pending)', design='5/C16', level='exploration')
 NOT_YET = {}
 props = [json.loads(l) for l in open(os.path.join(V, 'properties.jsonl'))]
 checks, na = [], []
